@@ -361,10 +361,16 @@ pub struct ServerConc {
     pub events: Vec<SEv>,
     pub name: &'static str,
     pub limit: u32,
+    /// the peer advertises a stream window of 1000: half of a 2 KiB response body is held back by flow control, so that a
+    /// response can be finished by the application (END_STREAM queued) while its stream is in no send queue
+    pub blocked: bool,
 }
 
 impl ServerConc {
     pub fn new(name: &'static str, quick: bool, limit: u32) -> ServerConc {
+        Self::new_variant(name, quick, limit, false)
+    }
+    pub fn new_variant(name: &'static str, quick: bool, limit: u32, blocked: bool) -> ServerConc {
         let slots = if quick { 3 } else { 4 };
         let mut ev = vec![SEv::PeerOpen, SEv::PeerOpenEos];
         for k in 0..slots {
@@ -380,7 +386,7 @@ impl ServerConc {
         }
         ev.push(SEv::Drive);
         ev.push(SEv::DriveBlocked);
-        ServerConc { events: ev, name, limit }
+        ServerConc { events: ev, name, limit, blocked }
     }
 }
 
@@ -424,7 +430,8 @@ impl Model for ServerConc {
     fn cfg(&self) -> T2Cfg {
         let mut sb = server::Builder::new();
         sb.max_concurrent_streams(self.limit);
-        T2Cfg { role: Side::Server, peer_settings: vec![], client: None, server: Some(sb), policy: IoPolicy::default() }
+        let peer_settings = if self.blocked { vec![(wf::setting::INITIAL_WINDOW_SIZE, 1000)] } else { vec![] };
+        T2Cfg { role: Side::Server, peer_settings, client: None, server: Some(sb), policy: IoPolicy::default() }
     }
     fn init(&self, _t: &mut T2) -> SWorld {
         SWorld { opened: vec![], peer_done: vec![], app_reset: vec![], app_ended: vec![] }
@@ -687,13 +694,15 @@ pub fn run(ctx: &Ctx) -> Outcome {
     let r2 = search(ctx, &c2, "C05", maxd, budget * 0.55, true);
     let r3 = search(ctx, &s1, "C05", maxd, budget * 0.75, true);
     let r4 = search(ctx, &s2, "C05", maxd, budget * 0.97, true);
-    fill_outcome(&mut out, &[(c1.name, &r1), (c2.name, &r2), (s1.name, &r3), (s2.name, &r4)]);
+    let s3 = ServerConc::new_variant(if quick { "server-limit1-blocked-q" } else { "server-limit1-blocked-t" }, quick, 1, true);
+    let r5 = search(ctx, &s3, "C05", maxd, budget * 1.2, true);
+    fill_outcome(&mut out, &[(c1.name, &r1), (c2.name, &r2), (s1.name, &r3), (s2.name, &r4), (s3.name, &r5)]);
     out.set("exhaustive", json!(false));
     out.set("alphabet", json!({"client": c1.events.iter().map(|e| format!("{:?}", e)).collect::<Vec<_>>(), "server": s1.events.iter().map(|e| format!("{:?}", e)).collect::<Vec<_>>()}));
     out.set("rule", json!("X2 on T2, both directions. Client subject: 2-3 SendRequest clones, requests (parked when over the limit), poll_ready, peer responses / RST_STREAM, client reset / drop, peer SETTINGS MAX_CONCURRENT_STREAMS {0,1,2,unlimited} at any time, GOAWAY; invariant: the subject never opens a stream while as many as the acknowledged limit are open on the wire according to what it has itself sent and consumed; epilogue: no request parked while a slot is free, no poll_ready waiter left unwoken. Server subject advertising 1 / 2: peer opens up to limit+2 streams and closes them by every path, application responds / resets / drops / reads; invariant: unfinished streams surfaced <= limit, a refused stream gets exactly one REFUSED_STREAM and never reaches accept(); epilogue: nothing in limbo, and a new stream is accepted whenever fewer than the limit are open on the wire (every close path frees its slot)"));
     out.add_sample(json!({"harness": format!("x2.{}", c1.name), "depth": 3, "choices": [1, 1, 14]}));
     let mut vs = VioSet::default();
-    for r in [r1, r2, r3, r4] {
+    for r in [r1, r2, r3, r4, r5] {
         vs.merge(r.agg.vios);
     }
     fill_sweep(&mut out, &mut vs, ctx.tier.is_quick());
@@ -719,10 +728,10 @@ pub fn replay(v: &serde_json::Value) -> Option<bool> {
                 return Some(replay_model(&ClientConc::new(name, quick, l), "C05", v));
             }
         }
-        for (n, l) in [("server-limit1", 1u32), ("server-limit2", 2)] {
+        for (n, l, b) in [("server-limit1", 1u32, false), ("server-limit2", 2, false), ("server-limit1-blocked", 1, true)] {
             let name: &'static str = Box::leak(format!("{}-{}", n, if quick { "q" } else { "t" }).into_boxed_str());
             if h == format!("x2.{}", name) {
-                return Some(replay_model(&ServerConc::new(name, quick, l), "C05", v));
+                return Some(replay_model(&ServerConc::new_variant(name, quick, l, b), "C05", v));
             }
         }
     }
